@@ -9,6 +9,22 @@ TECH = {
  'C19': 'static analysis: abstract interpretation of the tokenizer AST over character-category windows (finite dispatch table), plus structural def-use checks of categorize/tokenize',
  'C06': 'static analysis: context-propagating availability/progress dataflow over the reader and Buffer scans; tokenizer abstract interpretation; call-graph rule on raised types; dominance rules for subscripts',
  'C20': 'static analysis: affine abstract interpretation of the Buffer cursor field with Karr-style loop invariants; raise-set propagation; who-may-write rule for the queue',
+ 'C08': 'static analysis: linear-resource (token conservation) path analysis of the reader with per-context callee summaries; serialiser def-use rule; delimiter tables vs tokenizer dispatch table',
+ 'C01': 'static analysis: token conservation on the reader, lossless-serialiser def-use, delimiter-table agreement, raw-capture def-use, tokenizer partition (abstract interpretation)',
+ 'C10': 'static analysis: assertions on the tokenizer dispatch table (abstract interpretation) for backslash/percent windows; reader kind-blindness rule',
+ 'C12': 'static analysis: assertions on the tokenizer dispatch table for math-switch windows; kind/class/delimiter table agreement; def-use rules on the math readers; operator/sizing tables (constant folding)',
+ 'C09': 'static analysis: tokenizer dispatch-table assertions for whitespace/delimiters; cursor-movement summaries; spacer conservation; taint rule on the spacer variable',
+ 'C07': 'static analysis: option-role inference by data flow, threading and must-flow over the resolved call graph, truth-table non-interference of the tolerance option, conservation on tolerant paths',
+ 'C11': 'static analysis: call-graph reachability from the raw reader, skip-role threading/must-flow, dominance rule on the raw/parsed decision, raw-capture def-use',
+ 'C02': 'static analysis: mode-role threading and must-flow of the definition mode to the begin test; def-use rules on item and group readers',
+ 'C13': 'static analysis: position provenance (tokenizer abstract interpretation, affine evaluation of Token arithmetic, first-token rule from the conservation engine, regex offset def-use)',
+ 'C14': 'static analysis: MRO-resolved def-use of environment delimiters, setter write-through rules, slice-type rule, live-name match predicate',
+ 'C03': 'static analysis: class-lattice evaluation of view predicates; def-use/delegation rules on find/count/descendants/match',
+ 'C04': 'static analysis: class-lattice evaluation of view predicates; parent-wiring and delegation rules on the node views',
+ 'C05': 'static analysis: search-primitive classification (identity vs textual equality) and index def-use in the edit methods',
+ 'C15': 'static analysis: frame/effect analysis of mutators, no-memoisation rule, kind-flow analysis into content lists, view totality over stored kinds',
+ 'C17': 'static analysis: who-may-write rules for shared state, classification of set iterations with prefix-freeness of folded constants, fresh-root def-use, token provenance for attribute stores',
+ 'C18': 'static analysis: path-wise effect/typestate analysis of the TexArgs mutators (paired sequences, nothing fails after the write), signature comparison with list, serialiser def-use',
 }
 NA = {
  'C16': 'a relation between two executions on different inputs (parse(s) vs parse(str(parse(s)))); the only structural ingredient (spaced and adjacent argument groups read alike) is sufficient but not necessary, so a static rule would be a brittle proxy -- declined, see DESIGN.md section 6',
